@@ -12,6 +12,7 @@
   Panics are outcomes: dereferencing the extension `util.GetExtFromCert` did not find is `none`.
 -/
 import ZlModel.Basic
+import ZlModel.Thresholds
 namespace Zl.LL
 
 abbrev Oid := List Nat
@@ -40,16 +41,20 @@ inductive SPred
   | hasSuffix (lit : Bytes)
   | contains (lit : Bytes)
   | eq (lit : Bytes)
+  | lenCmp (c : Cmp) (k : Int)      -- len(s) OP k (octets)
+  | runesCmp (c : Cmp) (k : Int)    -- utf8.RuneCountInString(s) OP k
   | not (p : SPred)
   | and (p q : SPred)
   | or (p q : SPred)
-  deriving Repr
+  deriving Repr, DecidableEq
 
 def SPred.eval : SPred → Bytes → Bool
   | .hasPrefix l, s => l.isPrefixOf s
   | .hasSuffix l, s => l.isSuffixOf s
   | .contains l, s => containsSub s l
   | .eq l, s => s == l
+  | .lenCmp c k, s => c.eval s.length k
+  | .runesCmp c k, s => c.eval (Thresholds.runeCount s) k
   | .not p, s => !(p.eval s)
   | .and p q, s => p.eval s && q.eval s
   | .or p q, s => p.eval s || q.eval s
@@ -69,6 +74,7 @@ structure View where
   ints : List (Nat × Int) := []
   strs : List (Nat × Bytes) := []
   lists : List (Nat × ListVal) := []
+  times : List (Nat × Time) := []  -- time.Time fields, as instants
   exts : List (Oid × Bool) := []   -- c.ExtensionsMap: OID ↦ Critical (a map: one entry per OID)
   deriving Repr, Inhabited
 
@@ -80,8 +86,17 @@ def View.bool (v : View) (f : Nat) : Bool := lookup false f v.bools
 def View.int (v : View) (f : Nat) : Int := lookup 0 f v.ints
 def View.str (v : View) (f : Nat) : Bytes := lookup [] f v.strs
 def View.list (v : View) (f : Nat) : ListVal := lookup {} f v.lists
+def View.time (v : View) (f : Nat) : Time := lookup Time.zero f v.times
 /-- `util.GetExtFromCert(c, o)`: the map entry, if any -/
 def View.ext? (v : View) (o : Oid) : Option Bool := (v.exts.find? (fun e => e.1 == o)).map (·.2)
+
+/-- `a.Before(b)` / `a.After(b)` / `a.Equal(b)` on instants -/
+inductive TOp | before | after | equal
+  deriving DecidableEq, Repr
+def TOp.eval : TOp → Time → Time → Bool
+  | .before, a, b => Time.before a b
+  | .after, a, b => Time.after a b
+  | .equal, a, b => a.sec == b.sec && a.nsec == b.nsec
 
 inductive Cond
   | const (b : Bool)
@@ -89,6 +104,10 @@ inductive Cond
   | int (f : Nat) (c : Cmp) (k : Int)       -- c.F OP k
   | mask (f : Nat) (m : Nat)                -- c.F & m != 0
   | strEq (f : Nat) (lit : Bytes)           -- c.F == "lit"
+  | strP (f : Nat) (p : SPred)              -- a predicate on a string field (len(c.F) > 0, rune counts)
+  | maskEq (f : Nat) (m k : Nat)            -- c.F & m == k
+  | time (f : Nat) (op : TOp) (t : Time)    -- c.F.Before(t) / After / Equal, t a date constant of the source
+  | time2 (f : Nat) (op : TOp) (g : Nat)    -- c.F.Before(c.G) …
   | isNil (f : Nat)                         -- c.F == nil
   | len (f : Nat) (c : Cmp) (k : Int)       -- len(c.F) OP k
   | anyS (f : Nat) (p : SPred)              -- some element of the string list satisfies p
@@ -99,7 +118,7 @@ inductive Cond
   | not (c : Cond)
   | and (a b : Cond)                        -- Go's short-circuit &&
   | or (a b : Cond)                         -- Go's short-circuit ||
-  deriving Repr
+  deriving Repr, DecidableEq
 
 /-- evaluation; `none` = the Go expression panics (nil dereference) -/
 def evalC (v : View) : Cond → Option Bool
@@ -108,6 +127,10 @@ def evalC (v : View) : Cond → Option Bool
   | .int f c k => some (c.eval (v.int f) k)
   | .mask f m => some ((v.int f).toNat &&& m != 0)
   | .strEq f l => some (v.str f == l)
+  | .strP f p => some (p.eval (v.str f))
+  | .maskEq f m k => some ((v.int f).toNat &&& m == k)
+  | .time f op t => some (op.eval (v.time f) t)
+  | .time2 f op g => some (op.eval (v.time f) (v.time g))
   | .isNil f => some (v.list f).isNil
   | .len f c k => some (c.eval (v.list f).len k)
   | .anyS f p => some ((v.list f).strs.any p.eval)
@@ -128,7 +151,7 @@ def evalC (v : View) : Cond → Option Bool
 inductive Stmt
   | ret (s : Status)
   | ite (c : Cond) (t e : Stmt)
-  deriving Repr
+  deriving Repr, DecidableEq
 
 def evalS (v : View) : Stmt → Option Status
   | .ret s => some s
@@ -204,6 +227,8 @@ def Rule.safe (r : Rule) : Bool := r.applies.safe [] && r.body.safe r.applies.po
 
 def Cond.fields : Cond → List Nat
   | .bool f | .int f _ _ | .mask f _ | .strEq f _ | .isNil f | .len f _ _ | .anyS f _ | .anyO f _ | .anyI f _ => [f]
+  | .strP f _ | .maskEq f _ _ | .time f _ _ => [f]
+  | .time2 f _ g => [f, g]
   | .not c => c.fields
   | .and a b | .or a b => a.fields ++ b.fields
   | _ => []
@@ -211,5 +236,33 @@ def Stmt.fields : Stmt → List Nat
   | .ret _ => []
   | .ite c t e => c.fields ++ t.fields ++ e.fields
 def Rule.fields (r : Rule) : List Nat := r.applies.fields ++ r.body.fields
+
+/-! ### mirror images: the same rule about another field / another extension -/
+
+/-- renaming of field ids and of extension OIDs inside a term (subjectAltName ↦ issuerAltName, …) -/
+def Cond.rename (ρ : Nat → Nat) (σ : Oid → Oid) : Cond → Cond
+  | .const b => .const b
+  | .bool f => .bool (ρ f)
+  | .int f c k => .int (ρ f) c k
+  | .mask f m => .mask (ρ f) m
+  | .strEq f l => .strEq (ρ f) l
+  | .strP f p => .strP (ρ f) p
+  | .maskEq f m k => .maskEq (ρ f) m k
+  | .time f op t => .time (ρ f) op t
+  | .time2 f op g => .time2 (ρ f) op (ρ g)
+  | .isNil f => .isNil (ρ f)
+  | .len f c k => .len (ρ f) c k
+  | .anyS f p => .anyS (ρ f) p
+  | .anyO f os => .anyO (ρ f) os
+  | .anyI f is => .anyI (ρ f) is
+  | .ext o => .ext (σ o)
+  | .crit o => .crit (σ o)
+  | .not c => .not (c.rename ρ σ)
+  | .and a b => .and (a.rename ρ σ) (b.rename ρ σ)
+  | .or a b => .or (a.rename ρ σ) (b.rename ρ σ)
+
+def Stmt.rename (ρ : Nat → Nat) (σ : Oid → Oid) : Stmt → Stmt
+  | .ret s => .ret s
+  | .ite c t e => .ite (c.rename ρ σ) (t.rename ρ σ) (e.rename ρ σ)
 
 end Zl.LL
